@@ -163,7 +163,7 @@ func initialData(r *gen.Rng, g int) map[string]interface{} {
 
 func makePlan(r *gen.Rng, g, iters int) []op {
 	var plan []op
-	kinds := []string{"json", "xml", "find", "find", "upsert", "export", "constrain", "load", "load", "schema", "getvalue", "delete"}
+	kinds := []string{"json", "xml", "find", "find", "upsert", "export", "constrain", "load", "load", "loadfile", "schema", "getvalue", "delete"}
 	for i := 0; i < iters; i++ {
 		k := gen.Pick(r, kinds)
 		o := op{Kind: k, N: r.Intn(1000)}
@@ -186,6 +186,8 @@ func makePlan(r *gen.Rng, g, iters int) []op {
 			o.Arg = strings.ReplaceAll(o.Arg, "%d", fmt.Sprint(r.Intn(140)))
 		case "load":
 			o.N = r.Intn(6)
+		case "loadfile":
+			o.Arg = gen.Pick(r, []string{"fc-yang", "fc-doc"})
 		case "getvalue":
 			o.Arg = gen.Pick(r, []string{"name", "level", "port", "enabled", "transport"})
 		case "delete":
@@ -271,6 +273,13 @@ func runOp(ms *mods, b *node.Browser, data map[string]interface{}, o op) (res st
 		return fmt.Sprintf("%v|%v", dst, err) // fmt prints maps in key order
 	case "load":
 		m, err := parser.LoadModuleFromString(nil, loadYang(o.N))
+		if err != nil {
+			return "ERR:" + err.Error()
+		}
+		return describeModule(m)
+	case "loadfile":
+		// a module read through a source.Opener (embedded file system), with its imports
+		m, err := parser.LoadModule(yang.InternalYPath, o.Arg)
 		if err != nil {
 			return "ERR:" + err.Error()
 		}
